@@ -32,6 +32,11 @@ structure ListLike {Q : Type} (O : QOps Q) (abs : Q → List Nat) (Inv : Q → P
   popleft_cons : ∀ q h t, Inv q → abs q = h :: t →
     ∃ q', O.popleft q = some (h, q') ∧ Inv q' ∧ abs q' = t
 
+/-- fewer admissible append priorities: still list-like -/
+theorem ListLike.mono {Q : Type} {O : QOps Q} {abs : Q → List Nat} {Inv : Q → Prop} {P P' : Rat → Prop}
+    (L : ListLike O abs Inv P) (h : ∀ p, P' p → P p) : ListLike O abs Inv P' :=
+  { L with append := fun q p x hq hp hx => L.append q p x hq (h p hp) hx }
+
 theorem nodup_insertIdx {l : List Nat} {h : Nat} (i : Nat) (hl : l.Nodup) (hh : h ∉ l) (hi : i ≤ l.length) :
     (l.insertIdx i h).Nodup :=
   (List.perm_insertIdx h l hi).nodup_iff.mpr (List.nodup_cons.mpr ⟨hh, hl⟩)
